@@ -86,8 +86,14 @@ def r11a(ctx, rep):
                                 fn.short, which, "is guarded by a dominating peek() with no intervening next()" if ok
                                 else "has no dominating peek(): it panics at end of input instead of reporting Incomplete"),
                             [u[2]["loc"]])
-                    elif c.startswith("std::option::Option::<T>::map") or c.startswith("std::option::Option::<T>::is_"):
+                    elif c.startswith("std::option::Option::<T>::is_"):
                         pass
+                    else:
+                        # any other consumer (map, and_then, unwrap_or ...) hides what happens at the end of the tokens
+                        n_sites += 1
+                        rep.fail("R11a", key, "%s: the result of %s() on the token cursor goes to %s; the end-of-tokens case is "
+                                 "no longer visibly turned into parse::Error::Incomplete (ok_or(Incomplete) / an explicit None "
+                                 "arm / unwrap after peek are the recognised forms)" % (fn.short, which, short_path(c)), [u[2]["loc"]])
                 elif u[0] == "stmt" and u[2]["rv"]["k"] == "disc":
                     # explicit match: find the switch on this discriminant, None = 0
                     d = u[2]["lhs"]["l"]
